@@ -6,6 +6,7 @@
 From Coq Require Import List NArith Arith Bool String.
 From SV Require Import Fmt.LongString Fmt.LongStringProofs Fmt.FgdBin Fmt.FgdBinProofs SM.LazyDb SM.LazyDbProofs SM.LazyDbMulti SM.LazyDbMultiProofs.
 From SV Require Import Fmt.FgdBinEnt Fmt.FgdBinEntProofs Fmt.FgdLine Fmt.FgdLineProofs Fmt.FgdLineTextProofs Fmt.FgdBody Fmt.FgdBodyProofs.
+From SV Require Import Fmt.FgdHead Fmt.FgdHeadProofs Fmt.FgdEntity Fmt.FgdEntityProofs.
 From SV Require Import Gen.FgdConsts_gen.
 Import ListNotations.
 Open Scope N_scope.
@@ -266,6 +267,72 @@ Definition empty_resources_need_block : bool :=
   | Some (None, _), Some (Some [], _) => true
   | _, _ => false
   end.
+
+(** * The entity header and the whole entity definition (token level, Fmt/FgdHead.v, Fmt/FgdEntity.v; round 3) *)
+(** Helper objects are abstract: [known n] = `HelperTypes(n)` succeeds, [hparse n args] = `HELPER_IMPL[HelperTypes(n)].parse(args)`
+    (None = it raises), [hunknown n args] = `UnknownHelper(n, args)`.  [form_ok f h]: the written form [f] of a helper (bare name /
+    name(args)) is read back as the object [h]; arguments and base names are non-empty, stripped and without ','; a helper is not
+    called base, aliasof or autovis.  [secs] = the '+' sections of the description (none for an empty description).
+    The header as EntityDef.export writes it — `base(..)` or `aliasof(..)` when there are bases, one helper per line, `= classname`,
+    `: description`, `[` — is read back by EntityDef.parse (from the token after `@PointClass`) as the same bases in the same
+    order, the alias flag (extended syntax only), the same helper objects in the same order, the class name and the description,
+    and the parser stops right after the `[`. *)
+Theorem c16_entity_header_roundtrip :
+  forall (H : Type) (known : str -> bool) (hparse : str -> list str -> option H) (hunknown : str -> list str -> H),
+  known KW_BASE = true -> known KW_ALIASOF = false ->
+  forall (custom alias : bool) (bases : list str) (forms : list hform) (hidden : bool) (hs : list H) (cls : str) (secs : list str) (rest : list tok),
+  bases_ok bases -> Forall2 (form_ok H known hparse hunknown) forms hs -> strip cls = cls ->
+  head_read H known hparse hunknown (head_toks custom alias bases forms hidden cls secs ++ rest)
+  = Some (mk_head H (match bases with [] => false | _ => alias && custom end) bases hs cls (List.concat secs), rest).
+Proof. exact head_roundtrip. Qed.
+
+(** the `(a, b, c)` of a helper or of base(): `', '.join(args)` is split at ',' and stripped back to the arguments *)
+Theorem c16_helper_args_roundtrip : forall args, Forall arg_ok args -> paren_args (join_cs args) = args.
+Proof. exact paren_args_join. Qed.
+
+(** Composition of the header with [c16_entity_body_roundtrip]: a WHOLE entity definition as written — header, `[`, keyvalue / input /
+    output lines, @resources, `]` — is read back as the same header fields and the same body. *)
+Theorem c16_entity_text_roundtrip :
+  forall (tag_norm : str -> str) (tags_valid : list str -> bool) (vt : Type) (vt_text : vt -> str) (vt_lookup : str -> option (bool * vt))
+         (vt_is_bool vt_is_flags vt_is_choices : vt -> bool) (io_text : vt -> str) (io_lookup : str -> option vt) (io_decay : vt -> vt)
+         (dec : N -> str) (undec : str -> option N) (pow2 : N -> bool) (cfg : line_cfg) (rt : Type) (rt_text : rt -> str)
+         (rt_lookup : str -> option rt)
+         (H : Type) (known : str -> bool) (hparse : str -> list str -> option H) (hunknown : str -> list str -> H),
+  (forall v, vt_lookup (vt_text v) = Some (false, v)) -> (forall v, io_lookup (io_text v) = Some (io_decay v)) ->
+  (forall n, undec (dec n) = Some n) -> (forall t, rt_lookup (rt_text t) = Some t) ->
+  colons_before_desc_without_default cfg = 2%nat -> res_block_if_defined cfg = true ->
+  known KW_BASE = true -> known KW_ALIASOF = false ->
+  forall (label custom alias : bool) (bases : list str) (forms : list hform) (hidden : bool) (hs : list H) (cls : str) (secs : list str)
+         (items : list (nat * item vt)) (res : resources rt) (rest : list tok),
+  bases_ok bases -> Forall2 (form_ok H known hparse hunknown) forms hs -> strip cls = cls ->
+  Forall (item_wf tag_norm tags_valid vt vt_is_bool vt_is_flags vt_is_choices dec pow2 cfg label) (map snd items) ->
+  match res with Some l => Forall (riwf tag_norm tags_valid rt) l | None => True end ->
+  entity_read tag_norm tags_valid vt vt_lookup vt_is_bool vt_is_flags vt_is_choices io_lookup dec undec pow2 rt rt_lookup H known hparse hunknown
+    (entity_toks vt vt_text vt_is_bool vt_is_flags io_text dec cfg rt rt_text label custom alias bases forms hidden cls secs items res ++ rest)
+  = Some (mk_head H (match bases with [] => false | _ => alias && custom end) bases hs cls (List.concat secs),
+          with_res vt rt (fold_left (add_item vt vt_is_bool io_decay cfg rt custom) (map snd items) (mk_body vt rt [] [] [] None))
+                   (if custom then res else None),
+          rest).
+Proof. exact entity_roundtrip. Qed.
+
+(** One concrete header (non-vacuity): `aliasof(A, B)` NEWLINE `s(1 2, 3)` NEWLINE `h` NEWLINE `u(x)` NEWLINE `= e : "de" + "sc"` NEWLINE `[`
+    with the known helper types base, s, h; helper objects are (name, arguments).  And two limits of the format that the premises
+    exclude: an unknown helper written WITHOUT parentheses is forgotten when the next helper name arrives, and an argument that
+    contains a comma comes back as two. *)
+Definition xh_known (n : str) : bool := str_eqb n KW_BASE || str_eqb n [115] || str_eqb n [104].
+Definition xh_parse (n : str) (a : list str) : option (str * list str) := Some (n, a).
+Definition xh_read := head_read (str * list str) xh_known xh_parse (fun n a => (n, a)).
+Example c16_entity_header_example :
+  xh_read (head_toks true true [[65]; [66]] [HCall [115] [[49; 32; 50]; [51]]; HBare [104]; HCall [117] [[120]]] false [101] [[100; 101]; [115; 99]] ++ [TNl])
+  = Some (mk_head _ true [[65]; [66]] [([115], [[49; 32; 50]; [51]]); ([104], []); ([117], [[120]])] [101] [100; 101; 115; 99], [TNl])
+  /\ xh_known KW_BASE = true /\ xh_known KW_ALIASOF = false.
+Proof. split; [vm_compute; reflexivity|split; reflexivity]. Qed.
+Example c16_bare_unknown_helper_refuted :
+  option_map (fun x => h_helpers _ (fst x)) (xh_read [TStr [117]; TNl; TStr [118]; TParen []; TNl; TEq; TStr [101]; TNl; TBrOpen])
+  = Some [([118], [])].
+Proof. vm_compute. reflexivity. Qed.
+Example c16_comma_in_argument_refuted : paren_args (join_cs [[97; 44; 98]]) = [[97]; [98]].
+Proof. vm_compute. reflexivity. Qed.
 
 (** * Binary database: tables and bit packings *)
 (** VALUE_TYPE_ORDER / FILE_TYPE_ORDER: the index written for an enum member reads back as that member
